@@ -112,6 +112,8 @@ def random_configs(pid, tier, seed):
     q = tier == "quick"
     runs = 25 if q else 150
     base = [dict(n=3, tick=2, gmin=0, gmax=5), dict(n=2, tick=1, gmin=1, gmax=3), dict(n=4, tick=3, gmin=0, gmax=7)]
+    if pid == "C14":
+        base.append(dict(n=3, tick=2, gmin=2, gmax=6))      # non-zero minimum strictly below the maximum
     if not q:
         base += [dict(n=3, tick=5, gmin=2, gmax=4), dict(n=4, tick=1, gmin=0, gmax=9), dict(n=2, tick=2, gmin=3, gmax=3)]
     return [dict(c, runs=runs, seed=seed * 101 + i, mode=MODE[pid]) for i, c in enumerate(base)]
